@@ -230,14 +230,6 @@ def unjudged_geometry(doc):
                for b in pm_foot.all_boxes(doc['root']))     # known finding clone-negative-margin-bottom (C03)
 
 
-def area_decoration(doc, area=None):
-    """Sum of the vertical decorations of a footnote area; without `area`: the least one over the `@footnote`
-    rules of the document (the unnamed one and those of named page types)."""
-    if area is None:
-        return min(area_decoration(doc, a) for a in [doc['area'], *(doc.get('named') or {}).values()])
-    return sum(area[k] for k in ('mt', 'mb', 'pt', 'pb', 'bt', 'bb'))
-
-
 def placed_lines(doc, page):
     """(paragraph id, line, top, bottom) of the lines of a page, in tree order."""
     from fractions import Fraction
@@ -260,7 +252,7 @@ def unbreakable_violation(doc, impl_out):
     page nor on the next one), and is not on the chain of first content, ends above the page bottom and above the
     footnote area."""
     from fractions import Fraction
-    if impl_out.startswith('err:') or area_decoration(doc) < 0:
+    if impl_out.startswith('err:'):
         return None
     fixed = {b['id'] for b in pm_foot.all_boxes(doc['root']) if b['st']['height'] != 'auto'}
     if not fixed:
@@ -313,9 +305,9 @@ def overlap_violation(doc, impl_out):
     """Geometry (C03): no line of the page (other than the first line placed on it) ends below the top of the margin
     box of the page's footnote area, i.e. body text and footnote area do not overlap; the footnotes of the area are
     stacked without gap or overlap, the area ends at the page bottom; and no such line ends below the page box.
-    Documents with fixed / maximal heights (content overflows its box by design) are not judged; a footnote area
-    whose decorations sum to a negative length is judged for the area itself only (finding
-    footnote-area-negative-margin-box)."""
+    Documents with fixed / maximal heights (content overflows its box by design) are not judged.  Every `@footnote`
+    style is judged, negative margins included (the excuses for the findings footnote-area-negative-margin-overflow
+    and -box went with the repairs 84e5b27 and 2efefde: `page_bottom` never exceeds the page box nor the area top)."""
     if impl_out.startswith('err:'):
         return None
     if unjudged_geometry(doc):
@@ -328,22 +320,19 @@ def overlap_violation(doc, impl_out):
         return what
     from fractions import Fraction
     pages, _ = parse(impl_out)
-    negative = area_decoration(doc) < 0
     limit = doc['pageH'] * (1 + Fraction(1, 10**9))
     for page in pages:
         area = page[9]
         placed = placed_lines(doc, page)
-        if not negative:
-            for pid, i, _y, bottom in placed[1:]:
-                if bottom > limit:
-                    return f'page {page[1]}: line {(pid, i)} ends at {bottom} below the page box ({doc["pageH"]})'
+        for pid, i, _y, bottom in placed[1:]:
+            if bottom > limit:
+                return f'page {page[1]}: line {(pid, i)} ends at {bottom} below the page box ({doc["pageH"]})'
         if len(area) < 7 or not area[6]:
             continue
         top = Fraction(area[1])
-        if not negative:
-            for pid, i, _y, bottom in placed[1:]:
-                if bottom > top:
-                    return f'page {page[1]}: line {(pid, i)} ends at {bottom} below the footnote top {top}'
+        for pid, i, _y, bottom in placed[1:]:
+            if bottom > top:
+                return f'page {page[1]}: line {(pid, i)} ends at {bottom} below the footnote top {top}'
         # the area box: margin box from `top` to the page bottom, children stacked from its content top
         a = pm_foot.area_for(doc, page[4])
         height, mb, pb, bb = (Fraction(area[k]) for k in (2, 3, 4, 5))
@@ -425,7 +414,7 @@ def decoration_violation(doc, impl_out, continued_only=True):
     (`continued_only=False` also judges the boxes that end on the page: on the chain of first content the unchanged
     code lets their bottom paddings overflow - nothing is laid out again there - so that is not judged.)"""
     from fractions import Fraction
-    if impl_out.startswith('err:') or unjudged_geometry(doc) or area_decoration(doc) < 0:
+    if impl_out.startswith('err:') or unjudged_geometry(doc):
         return None
     pages, _ = parse(impl_out)
     for number, page in enumerate(pages):
@@ -477,21 +466,21 @@ def replay_area_negative_margin():
 
 
 def replay_area_negative_margin_box():
-    """@footnote{margin-top:-14px} over a 10px footnote: the margin box of the non-empty area is -4px high,
-    page_bottom ends below the page box and a line overflows it."""
+    """(fixed 2efefde) @footnote{margin-top:-14px} over a 10px footnote: the margin box of the non-empty area is
+    -4px high, page_bottom ended below the page box and a line overflowed it."""
     doc = corpus_doc('footnote_area_negative_margin_box')
     return bool(page_box_overflow(doc, real_line(doc)))
 
 
 FINDING_REPLAYS = {
     'footnote-page-groups-attributeerror': replay_page_groups_none,        # C02 (variant of page-groups-indexerror)
-    'footnote-area-negative-margin-box': replay_area_negative_margin_box,  # C03
     # repaired in /repo (`fixed:` lines of known_findings.txt); kept so that the checks that still name them keep
     # working - the documents are regression cases of add_cases (corpus first)
     'footnote-policy-block-crash': replay_policy_block_crash,              # C02, fixed 67bf2ca
     'footnote-named-page-lost': replay_named_page_lost,                    # C01, fixed 8db5909
     'footnote-named-page-area-overlap': replay_named_page_overlap,         # C03, fixed 8db5909
     'footnote-area-negative-margin-overflow': replay_area_negative_margin,  # C03, fixed 84e5b27
+    'footnote-area-negative-margin-box': replay_area_negative_margin_box,  # C03, fixed 2efefde
 }
 
 
